@@ -56,6 +56,14 @@ def programs():
                                           threads=[[['send_text', 'T1-0 mmmmmmmmmmmm']], [['send_text', 'T2-0 mmmmmmmmmmmm']]])
     P['2x3-z'] = dict(z='permessage-deflate', threads=[[['send_text', 'T0-%d rrrrrrrrrrrrrr' % j] for j in range(3)],
                                                        [['send_text', 'T1-%d rrrrrrrrrrrrrr' % j] for j in range(3)]])
+    P['3x2-z'] = dict(z='permessage-deflate', threads=[[['send_text', 'T%d-%d ssssssssssssss' % (t, j)] for j in range(2)] for t in range(3)])
+    P['2x2-z-window9'] = dict(z='permessage-deflate; client_max_window_bits=9',
+                              threads=[[['send_binary', b'T0-0 ' + bytes(range(256)) * 3], ['send_binary', b'T0-1 ' + bytes(range(256)) * 3]],
+                                       [['send_binary', b'T1-0 ' + bytes(range(256)) * 3], ['send_text', 'T1-1 uuuuuuuu']]])
+    P['3x2-z'] = dict(z='permessage-deflate', threads=[[['send_text', 'T%d-%d ssssssssssssss' % (t, j)] for j in range(2)] for t in range(3)])
+    P['2x2-z-window9'] = dict(z='permessage-deflate; client_max_window_bits=9',
+                              threads=[[['send_binary', b'T0-0 ' + bytes(range(256)) * 3], ['send_binary', b'T0-1 ' + bytes(range(256)) * 3]],
+                                       [['send_binary', b'T1-0 ' + bytes(range(256)) * 3], ['send_text', 'T1-1 uuuuuuuu']]])
     return P
 
 
